@@ -8,12 +8,42 @@ Open Scope Qc_scope.
 Lemma in_range_spec d k : in_range d k = true -> (1 <= k <= Z.of_nat d)%Z.
 Proof. unfold in_range. intro H. apply andb_prop in H. destruct H as [A B]. apply Z.leb_le in A, B. lia. Qed.
 
+Lemma nth_map_seq (f : nat -> Z) n k : (k < n)%nat -> nth k (map f (seq 0 n)) 0%Z = f k.
+Proof.
+  intro H. rewrite (nth_indep _ 0%Z (f 0%nat)) by (rewrite map_length, seq_length; lia).
+  rewrite (map_nth f (seq 0 n) 0%nat k). rewrite seq_nth by lia. reflexivity.
+Qed.
+(* a Modelica range is the arithmetic progression lo, lo+st, ... of its own length *)
+Lemma mrange_shape lo st hi :
+  modelica_range lo st hi =
+  map (fun k => (lo + Z.of_nat k * st)%Z) (seq 0 (length (modelica_range lo st hi))).
+Proof.
+  unfold modelica_range. destruct (_ || _); [reflexivity |].
+  rewrite map_length, seq_length. reflexivity.
+Qed.
+(* the Python slice slice(p0 - 1, end, st) built from the picked indices p0, p0+st, ..., p0+(n-1)st
+   selects exactly their 0-based counterparts, in the same order *)
+Lemma arange_of_prog lo st n : st <> 0%Z -> (1 <= n)%nat ->
+  arange (lo - 1) (lo + Z.of_nat (n - 1) * st - 1 + (if (0 <? st)%Z then 1 else -1)) st =
+  map (fun k => (lo - 1 + Z.of_nat k * st)%Z) (seq 0 n).
+Proof.
+  intros Hst Hn. unfold arange.
+  set (m := Z.of_nat (n - 1)). assert (Z.of_nat n = m + 1)%Z as En by (unfold m; lia).
+  destruct (0 <? st)%Z eqn:Hp.
+  - apply Z.ltb_lt in Hp.
+    replace (lo + m * st - 1 + 1 - (lo - 1) + st - 1)%Z with ((m + 1) * st)%Z by ring.
+    rewrite Z.div_mul by lia. replace (Z.to_nat (m + 1)) with n by lia. reflexivity.
+  - apply Z.ltb_ge in Hp. assert ((st <? 0)%Z = true) as -> by (apply Z.ltb_lt; lia).
+    replace (lo - 1 - (lo + m * st - 1 + -1) + - st - 1)%Z with ((m + 1) * (- st))%Z by ring.
+    rewrite Z.div_mul by lia. replace (Z.to_nat (m + 1)) with n by lia. reflexivity.
+Qed.
+
 Lemma sub_rel d s sc im ic :
   m_sub d s = Some (sc, im) -> c_sub d s = Some ic ->
   length ic = length im /\
   forall i, (i < length im)%nat -> (nth i ic 0 = nth i im 0 - 1 /\ 1 <= nth i im 0)%Z.
 Proof.
-  destruct s as [k | lo hi |]; simpl; intros Hm Hc.
+  destruct s as [k | lo hi | | lo st hi]; cbn [m_sub c_sub]; intros Hm Hc.
   - destruct (in_range d k) eqn:R; [| discriminate Hm]. injection Hm as <- <-. injection Hc as <-.
     apply in_range_spec in R. split; [reflexivity |]. intros i Hi. simpl in Hi.
     destruct i; [simpl; lia | lia].
@@ -25,6 +55,28 @@ Proof.
     intros i Hi. rewrite !zrange_nth by lia. lia.
   - injection Hm as <- <-. injection Hc as <-. rewrite !zrange_length. split; [reflexivity |].
     intros i Hi. rewrite !zrange_nth by lia. lia.
+  - destruct (st =? 0)%Z eqn:Est; [discriminate Hm |]. apply Z.eqb_neq in Est.
+    rewrite (range_values_modelica lo st hi Est) in Hc.
+    pose proof (mrange_shape lo st hi) as Hs.
+    remember (modelica_range lo st hi) as idx eqn:Eidx.
+    destruct idx as [| p0 rest]; cbv beta match in Hm, Hc; [discriminate Hm |].
+    destruct (forallb (in_range d) (p0 :: rest)) eqn:Efa; [| discriminate Hm]. injection Hm as <- <-.
+    destruct (in_range d (Z.min p0 (nth (length (p0 :: rest) - 1) (p0 :: rest) 0%Z)) &&
+              in_range d (Z.max p0 (nth (length (p0 :: rest) - 1) (p0 :: rest) 0%Z))); [| discriminate Hc].
+    injection Hc as <-.
+    set (n := length (p0 :: rest)) in *. assert (1 <= n)%nat as Hn by (unfold n; simpl; lia).
+    assert (forall i, (i < n)%nat -> nth i (p0 :: rest) 0%Z = (lo + Z.of_nat i * st)%Z) as Hnth.
+    { intros i Hi. rewrite Hs. apply nth_map_seq. exact Hi. }
+    assert (p0 = lo) as E0 by (specialize (Hnth 0%nat ltac:(lia)); simpl in Hnth; lia).
+    change (match (length rest - 0)%nat with 0%nat => p0 | S m => nth m rest 0%Z end)
+      with (nth (n - 1) (p0 :: rest) 0%Z).
+    rewrite (Hnth (n - 1)%nat) by lia. replace (p0 - 1)%Z with (lo - 1)%Z by lia.
+    rewrite (arange_of_prog lo st n Est Hn).
+    rewrite map_length, seq_length. split; [reflexivity |].
+    intros i Hi. rewrite nth_map_seq by exact Hi. rewrite Hnth by exact Hi. split; [lia |].
+    rewrite forallb_forall in Efa.
+    assert (In (nth i (p0 :: rest) 0%Z) (p0 :: rest)) as Hin by (apply nth_In; exact Hi).
+    apply Efa in Hin. apply in_range_spec in Hin. rewrite Hnth in Hin by exact Hi. lia.
 Qed.
 
 Lemma sumn_ext k f g : (forall l, (l < k)%nat -> f l = g l) -> sumn k f = sumn k g.
@@ -123,14 +175,20 @@ Proof.
     destruct sc1, sc2; try discriminate Hm; injection Hm as <- <-.
     + (* scalar row index, slice of columns: a ROW (1, len) *)
       assert (length im1 = 1)%nat as L1.
-      { destruct s1 as [k | lo hi |]; simpl in Em1; [| destruct (_ && _); discriminate Em1 | discriminate Em1].
+      { destruct s1 as [k | lo hi | | lo st hi]; cbn [m_sub] in Em1;
+          [| destruct (_ && _); discriminate Em1 | discriminate Em1
+           | destruct (st =? 0)%Z; [discriminate Em1 |]; destruct (modelica_range lo st hi); [discriminate Em1 |];
+             destruct (forallb _ _); discriminate Em1].
         destruct (in_range d1 k); [| discriminate Em1]. injection Em1 as <-. reflexivity. }
       right. repeat split; cbn [cm_r cm_c cm_get]; [congruence | exact HL2 |].
       intros i Hi. destruct (HN1 0%nat ltac:(lia)) as [A1 A2]. destruct (HN2 i Hi) as [B1 B2].
       rewrite A1, B1. apply mat2'; assumption.
     + (* slice of rows, scalar column index: a COLUMN (len, 1) *)
       assert (length im2 = 1)%nat as L2.
-      { destruct s2 as [k | lo hi |]; simpl in Em2; [| destruct (_ && _); discriminate Em2 | discriminate Em2].
+      { destruct s2 as [k | lo hi | | lo st hi]; cbn [m_sub] in Em2;
+          [| destruct (_ && _); discriminate Em2 | discriminate Em2
+           | destruct (st =? 0)%Z; [discriminate Em2 |]; destruct (modelica_range lo st hi); [discriminate Em2 |];
+             destruct (forallb _ _); discriminate Em2].
         destruct (in_range d2 k); [| discriminate Em2]. injection Em2 as <-. reflexivity. }
       left. repeat split; cbn [cm_r cm_c cm_get]; [exact HL1 | congruence |].
       intros i Hi. destruct (HN1 i Hi) as [A1 A2]. destruct (HN2 0%nat ltac:(lia)) as [B1 B2].
